@@ -901,7 +901,11 @@ def h_map_rebuilt(eng):
     list holds exactly the atoms that exist now, each once"""
     from pdb2pqr import debump, hydrogens
 
-    bm, _ = fixtures.prepared(fixtures.peptide_lines(["ALA", "SER", "LYS", "ALA"]))
+    # the structure also holds a water and a hetero group (ion / cofactor): every atom of the structure is a possible
+    # neighbour, whatever residue class it belongs to
+    lines = [ln for ln in fixtures.peptide_lines(["ALA", "SER", "LYS", "ALA"]) if not ln.startswith("END")]
+    lines += [fixtures.atom_line(900, "O", "HOH", "A", 90, 3.0, 7.0, 2.0, record="HETATM"), fixtures.atom_line(901, "S", "SO4", "A", 91, -4.0, 7.5, 1.0, record="HETATM"), fixtures.atom_line(902, "O1", "SO4", "A", 91, -4.0, 8.9, 1.0, record="HETATM"), "END"]
+    bm, _ = fixtures.prepared(lines)
     bm.add_hydrogens()
     deb = debump.Debump(bm)
     first = eng.choice("first_pass", 2)
